@@ -390,11 +390,19 @@ func (m *Message) ReadFrom(reader io.Reader) (int64, error) {
 	}
 	totalBytesRead += 1
 
-	payload := make([]byte, encodedMessageLength-1)
-	bytesRead, err := io.ReadFull(reader, payload)
-	totalBytesRead += int64(bytesRead)
+	if encodedMessageLength == 0 {
+		return totalBytesRead, fmt.Errorf("message length 0 does not cover the message type byte")
+	}
+
+	// read at most the declared payload; memory grows with the bytes actually received
+	payloadLength := int64(encodedMessageLength) - 1
+	payload, err := io.ReadAll(io.LimitReader(reader, payloadLength))
+	totalBytesRead += int64(len(payload))
 	if err != nil {
 		return totalBytesRead, err
+	}
+	if int64(len(payload)) != payloadLength {
+		return totalBytesRead, io.ErrUnexpectedEOF
 	}
 
 	var unmarshaler encoding.BinaryUnmarshaler
